@@ -262,6 +262,13 @@ structure VX where
   tree : List (String × STree) := []
   /-- what a recursive `a.handleCommand(c)` does -/
   self : St → Cmd → Option St := fun _ _ => none
+  /-- the callees `f.findPath()`, `hitTest(s, hits, col, row)`, `ss.containsPoint(col, row)` (for `ss` = the surface at the
+      origin), `f.focusWidget(app, w)`: by default the MODEL functions (`none` = `eFocusWidget e (fuel + 1)`); `Model/VxfwInterpAll.lean`
+      plugs in the interpreters run on the callees' own bodies -/
+  findPathF : St → Option (St × Bool) := fun s => some (findPath s)
+  hitTestF : STree → List Hit → Int → Int → Option (List Hit) := fun t hs c r => some (hs ++ hitTest t c r)
+  cpF : STree → Int → Int → Option Bool := fun t c r => some (containsPoint 0 0 t.w t.h c r)
+  fwF : Option (St → Id → Option (St × Bool)) := none
 
 structure VMX where
   vm : VM
@@ -342,7 +349,7 @@ def evBoolX (m : VMX) : Expr → Option Bool
   | .bin "==" (.var "r.mouse") (.var "nil") => some m.vm.s.mouse.isNone
   | .arg (.arg (.call (.var fn)) (.var "r.mouse.Col")) (.var "r.mouse.Row") =>      -- `ss.containsPoint(m.mouse.Col, m.mouse.Row)`
       match m.vm.s.mouse, find m.x.tree fn with
-      | some (col, row), some t => some (containsPoint 0 0 t.w t.h col row)
+      | some (col, row), some t => m.x.cpF t col row
       | _, _ => none
   | .bin "==" (.var a) (.var b) =>
       match find m.x.hit a, find m.x.hit b with
@@ -358,6 +365,12 @@ def vxCall (m : VMX) (c : String) : ResX :=
   | some (.other k) => some (setS m { m.vm.s with trace := m.vm.s.trace ++ [.eff (.other k)] }, .norm)
   | _ => none
 
+/-- `f.focusWidget(app, w)`: the plugged-in callee, or the model's `eFocusWidget e (fuel + 1)`. -/
+def callFw (e : EOracle) (fuel : Nat) (fwF : Option (St → Id → Option (St × Bool))) (s : St) (w : Id) : Option (St × Bool) :=
+  match fwF with
+  | some f => f s w
+  | none => some (eFocusWidget e (fuel + 1) s w)
+
 def atomX (e : EOracle) (fuel : Nat) (ev : Ev) (m : VMX) (l : Line) : ResX :=
   match l.kind, l.e1, l.e2 with
   | .continueS, .var _, .int n => some (m, .contOut n)            -- `continue L`, `n` loops further out
@@ -370,13 +383,13 @@ def atomX (e : EOracle) (fuel : Nat) (ev : Ev) (m : VMX) (l : Line) : ResX :=
         (.arg (.call (.var "uint16")) (.var "r.mouse.Col"))) (.arg (.call (.var "uint16")) (.var "r.mouse.Row")) =>
     match find m.x.tree t, find m.x.hitl x', m.vm.s.mouse with
     | some tr, some hs, some (col, row) =>
-      some ({ m with x := { m.x with hitl := (x, hs ++ hitTest tr (u16 col) (u16 row)) :: m.x.hitl } }, .norm)
+      (m.x.hitTestF tr hs (u16 col) (u16 row)).map (fun hs' => ({ m with x := { m.x with hitl := (x, hs') :: m.x.hitl } }, .norm))
     | _, _, _ => none
   | .assign, .var "r.lastHits", .var x => (find m.x.hitl x).map (fun hs => (setS m { m.vm.s with lastHits := hs }, .norm))
   -- `focusHandler.updatePath` (`r.lastFrame` is the focus handler's frame there)
   | .assign, .var "r.lastFrame", .var t => (find m.x.tree t).map (fun tr => (setS m { m.vm.s with fhFrame := some tr }, .norm))
   | .assign, .var "_", .arg (.arg (.call (.var "r.focusWidget")) (.var "v0")) (.var "r.root") =>
-    some (setS m (eFocusWidget e (fuel + 1) m.vm.s m.vm.s.root).1, .norm)
+    (callFw e fuel m.x.fwF m.vm.s m.vm.s.root).map (fun r => (setS m r.1, .norm))
   -- `App.handleCommand` (receiver `r` = the App)
   | .exprS, .arg (.call (.var "r.handleCommand")) (.var c), _ =>
     match find m.vm.cmds c with
@@ -390,8 +403,7 @@ def atomX (e : EOracle) (fuel : Nat) (ev : Ev) (m : VMX) (l : Line) : ResX :=
   | .define, .var x, .arg (.arg (.call (.var "r.fh.focusWidget")) (.var "r")) (.var c) =>
     match find m.vm.cmds c with
     | some (.focus w) =>
-      let r := eFocusWidget e (fuel + 1) m.vm.s w
-      some ({ m with vm := { m.vm with s := r.1, flags := (x, r.2) :: m.vm.flags } }, .norm)
+      (callFw e fuel m.x.fwF m.vm.s w).map (fun r => ({ m with vm := { m.vm with s := r.1, flags := (x, r.2) :: m.vm.flags } }, .norm))
     | _ => none
   | .exprS, .arg (.arg (.call (.var "log.Error")) _) _, _ => some (m, .norm)
   | .exprS, .arg (.call (.var "r.vx.SetMouseShape")) (.arg (.call (.var "vaxis.MouseShape")) (.var c)), _ => vxCall m c
@@ -430,8 +442,9 @@ def execX (e : EOracle) (fuel : Nat) (ev : Ev) : Stmt → VMX → ResX
     | some (m', .norm) => execX e fuel ev b m'
     | r => r
   | .ite (.un "!" (.call (.var "r.findPath"))) t el, m =>        -- `if !f.findPath() { … }`: the call sets `f.path`
-    let r := findPath m.vm.s
-    if r.2 then execX e fuel ev el (setS m r.1) else execX e fuel ev t (setS m r.1)
+    match m.x.findPathF m.vm.s with
+    | none => none
+    | some r => if r.2 then execX e fuel ev el (setS m r.1) else execX e fuel ev t (setS m r.1)
   | .ite c t el, m =>
     match evBoolX m c with
     | none => none
